@@ -96,6 +96,11 @@ def gen_series(rng, m, ties=True, integer=False):
             y = [Fraction(int(v * 8), 8 * 2 ** 40) for v in y]
         else:
             y = [Fraction(2 ** 20) + Fraction(int(v * 8), 8) for v in y]
+    elif r < 0.26 and m >= 4:
+        # a profile that nearly closes on itself: the last average misses the first by a tiny, non-zero amount
+        # (made periodic, then re-computed); it is still its own reading
+        y = list(y)
+        y[-1] = y[0] + rng.choice([1, -1]) * rng.choice([Fraction(1, 2 ** 20), Fraction(1, 2 ** 14), Fraction(3, 2 ** 16)])
     return x, y
 
 
@@ -217,6 +222,24 @@ def run_impl(c):
             xb[...] = S.interior_decoy(xreal)
             yb[...] = S.interior_decoy(yreal)
         obj = construct(c, xb, yb)
+        if oh == "sibling":
+            # a user strategy that overrides the documented oversampling hooks (straight lines between the readings instead
+            # of plateaus) ran on the same series just before: stock strategies are not affected by it
+            try:
+                from traffic_weaver import rfa as _rfa
+                from traffic_weaver.sorted_array_utils import oversample_linspace as _osl
+
+                class _LinesRFA(_rfa.PiecewiseConstantRFA):
+                    def _initial_y_oversample(self):
+                        return _osl(self.y, self.n)
+
+                class _ShiftedRFA(_rfa.PiecewiseConstantRFA):
+                    def _initial_x_oversample(self):
+                        return _osl(self.x, self.n) + 0.5
+                _LinesRFA(xb.copy(), yb.copy(), n).rfa()
+                _ShiftedRFA(xb.copy(), yb.copy(), n).rfa()
+            except Exception:  # noqa
+                pass
         if oh == "sibling" and s in WINDOW:
             # another object of the same class with other parameters is built in between (a parameter sweep)
             try:
